@@ -385,3 +385,56 @@ def replay(path):
         return 0
     finally:
         ctx.sc.cleanup()
+
+
+# ------------------------------------------------------------------ manifest texts
+_TB = ('trusted: TLC 1.8 and its Json/CommunityModules, the Go 1.23 toolchain, the renderer (abstract program -> Go source; a template that fails to '
+       'type-check is exit 2, never a verdict), the stderr tokeniser (diagnostic -> class keyword + named types), rt (reflection-based value descriptions). '
+       'Bounded: see coverage.rule in the evidence file.')
+_TECH_STATIC = 'TLA+ WireSem (declarative semantics) evaluated by TLC on TLC-enumerated program families; rendered to Go; real wire run; observations judged by TLC (WireJudge)'
+_TECH_RT = ('TLA+ WireInject model-checked exhaustively by TLC (WireInjectMC) + generated injectors executed with instrumented providers, '
+            'run-time traces validated by TLC against WireInject (WireInjectTrace)')
+TEXT = {
+    'C01': dict(level='exploration: TLC enumerates the forms x type-kinds product from the specification families; the deciding oracle for "nothing undefined, inaccessible or ill-typed" is the Go compiler on the generated package plus a typed function-variable assignment per injector; TLC (WireJudge) only checks gen-success => built.',
+                technique='TLC-enumerated program families (WireFamilies) rendered to Go, real wire gen, go build of the result, judged by TLC (WireJudge: wrote => built)'),
+    'C02': dict(level='model_checking: WireInject (wiring as guards: fed-by-source, at-most-once, only-if-needed, result identity) is model-checked exhaustively over the accepted programs of the families with every dependency-respecting call order; every generated injector of those programs is executed and its event trace must be a behaviour of WireInject (CheckW).',
+                technique=_TECH_RT),
+    'C03': dict(level='model_checking + fault enumeration: WireInjectMC explores every failure point of every flavour assignment on every DAG shape (n<=3 exhaustively) incl. repeated calls, checking NoCallAfterFailure, NoLeak, reverse unwinding, termination; the real injectors are executed under every single-failure schedule and alternations, traces validated with CheckE+CheckC.',
+                technique=_TECH_RT + '; fault schedules exported by TLC'),
+    'C04': dict(level='model_checking: WireInjectMC checks ReleaseIsReversePrefix, NoCleanupWhileRunning, AllReleasedWhenDone and the derived DependentBeforeDependency over all programs of family R n<=3; the real injectors run on success schedules, the aggregated cleanup is invoked, traces validated with CheckC.',
+                technique=_TECH_RT),
+    'C05': dict(level='model_checking: the finite space kind-pair x placement x type-form (family K, 1084 programs) is enumerated completely by TLC, WireSem marks each ambiguous, and the real gen and check must reject each with a multiple-bindings diagnostic naming the colliding type.',
+                technique=_TECH_STATIC),
+    'C06': dict(level='model_checking: WireSem!Missing evaluated by TLC on every digraph x node-kind assignment (n<=3 complete, n=4 sampled) plus targeted shapes; real gen must reject and name a type of Missing, and accept the complete programs.',
+                technique=_TECH_STATIC),
+    'C07': dict(level='model_checking: WireSem!CyclicTypes evaluated by TLC on every digraph with self-loops on n<=3 (complete) and n=4 (sampled quick / complete thorough), in one set, split over two sets, used or unused; scaling lattices/chains bound the analysis time by a timeout 50x the normal run.',
+                technique=_TECH_STATIC + '; hangs and crashes isolated per package under a time and memory limit'),
+    'C08': dict(level='model_checking: WireSem!UnusedItems / PartialFieldItems evaluated by TLC on family U and on all digraphs passed directly; gen must reject with an unused diagnostic exactly when an item is certainly unused; accepted programs are also executed (CheckW).',
+                technique=_TECH_STATIC),
+    'C09': dict(level='model_checking: the rule table WireSem!ResOK is total over the finite shape space; all shapes of length 0..3 (quick) / 0..4 (thorough) are enumerated by TLC in every placement and replayed.',
+                technique=_TECH_STATIC),
+    'C10': dict(level='model_checking: TLC evaluates WireSem on every regrouping/reordering variant of three bases and the harness checks that WireSem accepts each and assigns one wiring per base (a theorem of the semantics checked on the instances); every variant is generated by the real tool, executed, and validated with CheckW against that wiring.',
+                technique=_TECH_RT + ' over the regrouping family M'),
+    'C11': dict(level='model_checking: family B enumerated completely by TLC; accept/reject by WireSem (method-set rule, self binding, co-location); accepted programs model-checked (WireInjectMC) and executed, all consumers of I and of the bound type must observe one value (seen/Canon in WireInject).',
+                technique=_TECH_RT + ' + static judge for rejections'),
+    'C12': dict(level='model_checking: family S enumerated completely; WireSem decides name validity exactly; WireInject!ShapeOK checks at run time that selected fields carry the value of the source of their type, all others are zero, and that *F aliases the field inside the provided struct (pointer ordinals).',
+                technique=_TECH_RT + ' + static judge for rejections'),
+    'C13': dict(level='exploration: WireValueExpr is a typed grammar with the attributes the property names (calls, unexported, interface-typed, allocating); TLC enumerates depth<=2 (quick) / <=3 (thorough); MustReject is judged by TLC on the real verdicts; fidelity is judged by TLC on recorded value descriptions (home evaluation vs two injector calls).',
+                technique='TLA+ expression grammar enumerated by TLC, rendered, real wire, generated injectors executed, observations judged by TLC (WireJudge!GenOK, ValueOK)'),
+    'C14': dict(level='exploration: family N (all collision pairs of an adversarial pool over 12 nameable slots) is enumerated by TLC; the implementation is judged by go build and by trace validation of the renamed program against the unchanged wiring under every fault schedule (renaming invariance).',
+                technique='TLC-enumerated naming family (WireNames) + WireInjectTrace validation of the executed injectors (all switches)'),
+    'C15': dict(level='exploration: one implementation test per production x import context of WireCopyDecl; TLC judges the recorded observation (declared names once and in order, both builds, identical probe values).',
+                technique='TLC-enumerated production x context table (WireCopyDecl), rendered, real wire gen, package built with and without the wireinject tag, probe values compared by TLC (WireJudge!CopyOK)'),
+    'C16': dict(level='exploration: TLC enumerates the configuration lattice of WireConfig; every configuration is set up for real; TLC (WireConfigJudge) accepts iff all digests of a program are equal and nothing run-specific leaks.',
+                technique='TLC-enumerated configuration lattice (WireConfig) replayed against the real binary in module / vendor / GOPATH layouts; digests judged by TLC'),
+    'C17': dict(level='model_checking: WireCli is model-checked exhaustively (every (sources, disk) state x every command; 10 action properties); command histories generated by TLC (-simulate from Init, from arbitrary constructed states, and all one-step diff/gen transitions stratified) are replayed against the real binary with whole-tree snapshots and validated step by step by TLC (WireCliTrace, CkStatus+CkFootprint).',
+                technique='TLA+ WireCli model-checked by TLC; TLC-generated command histories replayed into the real binary; recorded steps validated by TLC (WireCliTrace)'),
+    'C18': dict(level='model_checking: as C17 with CkRegen: after every successful gen the file must equal (bytes) a from-scratch generation of the current sources in a pristine copy, whatever the history or the prior content; gen;gen and gen;diff are checked on consecutive steps.',
+                technique='TLA+ WireCli model-checked by TLC; TLC-generated histories replayed; file contents projected by byte comparison with from-scratch generations; validated by TLC (WireCliTrace)'),
+    'C19': dict(level='model_checking: gen and check are run on every program of six families and judged by TLC against one WireSem verdict (incl. ill-formed set variables no injector uses); wire show is parsed and compared by TLC with WireShow (includes, output groups by external inputs, injectors); CLI histories with CkCheck.',
+                technique=_TECH_STATIC + ' + WireShow + WireCliTrace(CkCheck)'),
+    'C20': dict(level='exploration: WireFront enumerates marker x argument position x expression form (all type-correct because the markers take interface{}) plus whole-file shapes; each is run under gen and check; TLC judges the outcome domain (exit 0, or diagnostics with a position; no panic, hang or silent failure).',
+                technique='TLC-enumerated front-end form table (WireFront), rendered, real wire gen/check per package with crash isolation, outcomes judged by TLC (WireJudge)'),
+}
+for _k in TEXT:
+    TEXT[_k].setdefault('note', _TB)
